@@ -197,7 +197,7 @@ fn run(values: bool, signals: bool, ctx: &Ctx, r: &mut Report) {
 		return;
 	}
 	let ncfg = ctx.pick(60, 200);
-	let classes: &[usize] = if ctx.thorough { &[0, 1, 2, 3, 4, 6, 7] } else { &[0, 1, 2, 3, 4, 7] };
+	let classes: &[usize] = if ctx.thorough { &[0, 1, 2, 3, 4, 6, 7, 5, 8, 9] } else { &[0, 1, 2, 3, 4, 7, 5, 8, 9] };
 	let steps = ctx.pick(600, 1500);
 	let mut k = 0u64;
 	let mut uncovered = Vec::new();
